@@ -45,6 +45,8 @@ def cases(tier):
                 for lay in LAYOUTS:
                     for k in scen.KINDS:
                         for n in (QNAMES if q else NAMES):
+                            if sc == 'rel-path-arg' and h == 'parent-removed':
+                                continue          # nobody can stand in a directory that was removed and name the entry relative to it
                             out.append({'name': n, 'kind': k, 'lay': lay, 'sort': so, 'scope': sc, 'hist': h})
     if q:
         # the PATH argument given relative to the working directory (quick: without history)
